@@ -273,4 +273,19 @@ theorem nested_dot_order_independent (Pi M : Nat) (plains : List Nat) (items : L
   obtain ⟨_, N', h1', h2'⟩ := Comb.nested_dot_any_order hs S es' hwf h'
   exact ⟨N, N', h1, h1', h2.trans h2'.symm⟩
 
+/-- **Negative witness (inner cartesian product of depth 2).** `dot[cart₂[p0, p1], p2]`: the members of an inner
+    schema carry different composite tags (`0.0.2.1` / `0.1.2.1`) and the schema is filed under `get_tag` of them, the
+    first string-longest: two different inner schemas get the tag `0.0.2.1`, only one of them meets the token of
+    `p2`, and which one depends on the arrival order (values 3 resp. 2 on port 1; the composition rule specifies
+    both). Reproduces on the real classes (known finding); the translator only builds depth 1, for which
+    `nested_cart_any_order` holds. -/
+theorem nested_cart_depth2_counterexample :
+    (runNested [Item.sub (.cart 2) [0, 1], Item.port 2]
+      [(0, ⟨[0, 0, 2], 1⟩), (1, ⟨[0, 0, 1], 2⟩), (1, ⟨[0, 1, 1], 3⟩), (2, ⟨[0], 9⟩)]).out.map (fun e => e.map (·.2.val))
+      = [[1, 3, 9]] ∧
+    (runNested [Item.sub (.cart 2) [0, 1], Item.port 2]
+      [(0, ⟨[0, 0, 2], 1⟩), (1, ⟨[0, 1, 1], 3⟩), (1, ⟨[0, 0, 1], 2⟩), (2, ⟨[0], 9⟩)]).out.map (fun e => e.map (·.2.val))
+      = [[1, 2, 9]] := by
+  decide +kernel
+
 end SFV.C02
